@@ -27,6 +27,7 @@ SCHEMA = {
     'FMEstimatedConfigurationsNumber': {'result': INT, 'feature_model': REF('FeatureModel')},
     'FMCoreFeatures': {'result': SEQ(REF('Feature'))},
     'UVLReader': {'path': STR, 'file': STR, 'parse_tree': PYVAL, 'namespace': STR, 'model': REF('FeatureModel')},
+    'AFMReader': {'path': STR, 'parse_tree': PYVAL, 'model': REF('FeatureModel')},
     'FMMetrics': {'model': REF('FeatureModel'), '_features': SEQ(REF('Feature')), '_feature_ancestors': SEQ(INT),
                   '_constraints_per_features': SEQ(INT), '_leaf_features': SEQ(STR), 'filter': PYVAL},
 }
